@@ -6,7 +6,7 @@ set -u
 export GOFLAGS=-mod=mod GOPROXY=off GOSUMDB=off GOTOOLCHAIN=local
 V=$(cd "$(dirname "$0")/.." && pwd)
 cd "$V"
-dirs=("$@"); [ ${#dirs[@]} -gt 0 ] || dirs=(seeded/*/)
+dirs=("$@"); [ ${#dirs[@]} -gt 0 ] || dirs=(seeded/C*/)
 for sd in "${dirs[@]}"; do
   sd=${sd%/}; name=$(basename "$sd"); prop=${name%%-*}
   d=/tmp/vmut/m-$name
